@@ -3,6 +3,7 @@ import Driver.Proto
 import GoldilocksVerif.Gen.Scalar
 import GoldilocksVerif.Model.Inv
 import GoldilocksVerif.Model.Conv
+import GoldilocksVerif.Model.Ext
 namespace Driver
 open Gen.Scalar
 
@@ -54,6 +55,41 @@ def c15 (fn : String) (args : List Arg) : Option String :=
   | "toString", [.w a, .w radix] => some ("ok s:" ++ toStringR a radix.toNat)
   | _, _ => none
 
+/-- C09: cubic extension — hand models and the generated aliased-call variants -/
+def e3Words (e : GoldilocksVerif.Model.E3) : List (BitVec 64) := [e.c0, e.c1, e.c2]
+def chunk3 : List (BitVec 64) → List GoldilocksVerif.Model.E3
+  | a :: b :: c :: rest => ⟨a, b, c⟩ :: chunk3 rest
+  | _ => []
+
+def c09 (fn : String) (args : List Arg) : Option String :=
+  open GoldilocksVerif GoldilocksVerif.Model Gen.Ext in
+  let r3 (a b c : BitVec 64) : Region := Region.ofList [a, b, c]
+  let out (r : Region) : Option String := okW (Region.toList r 3)
+  match fn, args with
+  | "g3inv", [.w a, .w b, .w c] => match g3inv ⟨a, b, c⟩ with
+      | some e => okW (e3Words e) | none => some "err exit 255"
+  | "g3div", [.w a, .w b, .w c, .w d] => match g3div ⟨a, b, c⟩ d with
+      | some e => okW (e3Words e) | none => some "err exit 255"
+  | "g3mulScalar", [.w a, .w b, .w c, .s str] => match g3mulScalar ⟨a, b, c⟩ str with
+      | some e => okW (e3Words e) | none => some "err bad-numeral"
+  | "g3batchinv", [.r l] => match g3batchInverse (chunk3 l) with
+      | some es => okW (es.flatMap e3Words) | none => some "err exit 255"
+  | "g3al_add_oa", [.w a, .w b, .w c, .w d, .w e, .w f] => out (G3_add__a3A3A3_al_result_a (r3 a b c) (r3 d e f))
+  | "g3al_add_ob", [.w a, .w b, .w c, .w d, .w e, .w f] => out (G3_add__a3A3A3_al_result_b (r3 d e f) (r3 a b c))
+  | "g3al_add_ab", [.w a, .w b, .w c] => out (G3_add__a3A3A3_al_a_b Region.zero (r3 a b c))
+  | "g3al_add_oab", [.w a, .w b, .w c] => out (G3_add__a3A3A3_al_result_a_al_result_b (r3 a b c))
+  | "g3al_sub_oa", [.w a, .w b, .w c, .w d, .w e, .w f] => out (G3_sub__a3a3a3_al_result_a (r3 a b c) (r3 d e f))
+  | "g3al_sub_ob", [.w a, .w b, .w c, .w d, .w e, .w f] => out (G3_sub__a3a3a3_al_result_b (r3 d e f) (r3 a b c))
+  | "g3al_sub_ab", [.w a, .w b, .w c] => out (G3_sub__a3a3a3_al_a_b Region.zero (r3 a b c))
+  | "g3al_sub_oab", [.w a, .w b, .w c] => out (G3_sub__a3a3a3_al_result_a_al_result_b (r3 a b c))
+  | "g3al_mul_oa", [.w a, .w b, .w c, .w d, .w e, .w f] => out (G3_mul__a3a3a3_al_result_a (r3 a b c) (r3 d e f))
+  | "g3al_mul_ob", [.w a, .w b, .w c, .w d, .w e, .w f] => out (G3_mul__a3a3a3_al_result_b (r3 d e f) (r3 a b c))
+  | "g3al_mul_ab", [.w a, .w b, .w c] => out (G3_mul__a3a3a3_al_a_b Region.zero (r3 a b c))
+  | "g3al_mul_oab", [.w a, .w b, .w c] => out (G3_mul__a3a3a3_al_result_a_al_result_b (r3 a b c))
+  | "g3al_neg_oa", [.w a, .w b, .w c] => out (G3_neg_al_result_a (r3 a b c))
+  | "g3al_square_oa", [.w a, .w b, .w c] => out (G3_square_al_result_a (r3 a b c))
+  | _, _ => none
+
 def handDispatch (fn : String) (args : List Arg) : Option String :=
   match c01Alias fn args with
   | some s => some s
@@ -62,6 +98,9 @@ def handDispatch (fn : String) (args : List Arg) : Option String :=
   | some s => some s
   | none =>
   match c15 fn args with
+  | some s => some s
+  | none =>
+  match c09 fn args with
   | some s => some s
   | none => none
 
